@@ -59,7 +59,7 @@ class Monitor:
 class Explorer:
     def __init__(self, world: World, workload, monitors, budget=None, *, max_states=200000, time_cap=None,
                  signal_spec=None, trust_negative=False, sweep_at_quiescence=False, setup=None, stop_on_violation=True,
-                 audit_bisim=False, actions_filter=None, die_points=("poll", "mark", "ack")):
+                 audit_bisim=False, actions_filter=None, die_points=("poll", "mark", "ack"), late_restart=False):
         self.w = world
         self.wl = workload
         self.monitors = monitors
@@ -74,6 +74,7 @@ class Explorer:
         self.audit_bisim = audit_bisim
         self.actions_filter = actions_filter
         self.die_points = die_points
+        self.late_restart = late_restart
         self.sweep_at_quiescence = sweep_at_quiescence
         # results
         self.states = 0
@@ -245,6 +246,11 @@ class Explorer:
             w.run_recovery()
         elif kind == "restart":
             b["restart"] -= 1
+            if self.late_restart:
+                # the worker stayed down for days: every processed record written so far is now old (nothing
+                # deletes them - the retention sweep is a separate, explicit action)
+                w.conn.execute("UPDATE processed_messages SET processed_at = datetime(processed_at, '-3 days')")
+                w.conn.commit()
             w.incarnate(trust_negative=self.trust_negative)
         elif kind == "rotate":
             b["rotate"] -= 1
